@@ -6,7 +6,7 @@ random).  Oracle: uncompressed -> byte identity with the reference-built message
 compressed -> the produced data section is read by the reference compressed reader and
 must satisfy the validity predicate (min + diff == raw, all-ones diff <=> missing,
 width 0 <=> all entries agree), everything outside section 4 identical."""
-from vlib import runner, sut, std, encutil
+from vlib import runner, sut, std, encutil, fuzz
 from vlib.runner import Outcome, Report
 from gen import messages as gmsg
 from refbufr import frame, codec, IllFormed
@@ -107,6 +107,13 @@ def gen(tier):
     return lambda ch: gmsg.gen_case(ch, opts)
 
 
+# ---- coverage-guided stage: the same generator and oracle, decisions taken from fuzzer bytes (vlib.fuzz) ----
+_fuzz_gen = gen('quick')
+
+
+fuzz_case = fuzz.structured_target(_fuzz_gen, check_case)
+
+
 def run(tier, seed):
     rep = Report(PID, tier, seed, 'exploration')
     rep.rule = ('the C01 template/value space (extra difference widths off); the flat JSON handed to the encoder is built '
@@ -122,6 +129,7 @@ def run(tier, seed):
     n = 5000 if tier == 'quick' else 120000
     runner.run_generated(rep, gen(tier), check_case, n, runner.tier_workers(tier),
                          shrink_s=20 if tier == 'quick' else 120)
+    fuzz.run_structured(rep, 'checks.c02', _fuzz_gen, tier)
     return rep.finish()
 
 
